@@ -166,8 +166,10 @@ def x_wait_for(I, args, kwargs, node):
     if c == 2:
         I.throw("TimeoutError", "")
     if c == 0:
+        # _handle_endpoint_event stores whatever the `endpoint` event carried - for blank data that is the EMPTY string
+        # (read from the source): "announced" must therefore be judged by the caller, not assumed
         u = I.fresh("announced_url")
-        I.assume(z3.And(V.is_str(u), z3.Length(Val.s(u)) > 0))
+        I.assume(V.is_str(u))
         I.set_attr(c12.transport, "_message_url", u)
     I.set_attr(c12.connected, "flag", V.TRUE)
     return V.TRUE
